@@ -1,11 +1,11 @@
 package props
 
 import (
-	"time"
 	"errors"
 	"fmt"
 	"sort"
 	"strings"
+	"time"
 
 	lisp "github.com/jig/lisp"
 	"github.com/jig/lisp/env"
@@ -20,8 +20,8 @@ import (
 
 type V = model.Value
 
-func sym(s string) V           { return model.Sym(s) }
-func form(h string, a ...V) V  { return model.List(append([]V{sym(h)}, a...)...) }
+func sym(s string) V          { return model.Sym(s) }
+func form(h string, a ...V) V { return model.List(append([]V{sym(h)}, a...)...) }
 func leaf(name string, v V) enum.Prod {
 	return enum.Prod{Name: name, Weight: 1, Build: func([]V) V { return v }}
 }
@@ -96,11 +96,11 @@ type implOutcome struct {
 
 type evalRig struct {
 	ntTraceOnly bool
-	farDeadline bool // evaluate under a context whose deadline is far away (nothing times out)
+	farDeadline bool      // evaluate under a context whose deadline is far away (nothing times out)
 	deadlineAt  time.Time // that deadline (zero: an hour from now)
-	base   types.EnvType
-	tracer *lx.Tracer
-	mbase  *model.Scope
+	base        types.EnvType
+	tracer      *lx.Tracer
+	mbase       *model.Scope
 }
 
 func newEvalRig(full bool) *evalRig {
@@ -341,10 +341,10 @@ func init() {
 		}
 		var tier string
 		core := &vf.Family{
-			Name:   "core-forms",
-			Bounds: "all programs of weight <=5 (quick) / <=6 (thorough) over 11 leaves (nil 0 1 x y (t! 0) (t! 1) (do) (list) 'a false) and 27 forms (if/do/let/fn with 4 parameter shapes []/[x]/(& y)/[x & y]/def/application/+/list), each via READ then EVAL in a fresh child scope",
-			Setup:  func(t string) { tier = t; setup(t) },
-			N:      func(t string) int64 { tier = t; return gOf(t).Count(0, wOf(t)) },
+			Name:     "core-forms",
+			Bounds:   "all programs of weight <=5 (quick) / <=6 (thorough) over 11 leaves (nil 0 1 x y (t! 0) (t! 1) (do) (list) 'a false) and 27 forms (if/do/let/fn with 4 parameter shapes []/[x]/(& y)/[x & y]/def/application/+/list), each via READ then EVAL in a fresh child scope",
+			Setup:    func(t string) { tier = t; setup(t) },
+			N:        func(t string) int64 { tier = t; return gOf(t).Count(0, wOf(t)) },
 			Describe: func(i int64) string { return gOf(tier).Unrank(0, i).Lisp() },
 			Run: func(i int64, r *vf.Rec) {
 				rg.compareWithModel(gOf(tier).Unrank(0, i), []string{"x", "y"}, r, true)
@@ -374,10 +374,10 @@ func init() {
 			return form("do", form("def", sym("f"), form("fn", params[p], g2Of().Unrank(0, b))), g2Of().Unrank(0, c))
 		}
 		rec := &vf.Family{
-			Name:   "closure-recursion",
-			Bounds: "(do (def f (fn P B)) C) for the 3 parameter shapes and every B, C of weight <=2 (quick) / <=3 (thorough) over the alphabet extended with f, false, 2, <, count, -",
-			Setup:  func(t string) { tier = t; setup(t) },
-			N:      func(t string) int64 { tier = t; n := recN(t); return n * n * 3 },
+			Name:     "closure-recursion",
+			Bounds:   "(do (def f (fn P B)) C) for the 3 parameter shapes and every B, C of weight <=2 (quick) / <=3 (thorough) over the alphabet extended with f, false, 2, <, count, -",
+			Setup:    func(t string) { tier = t; setup(t) },
+			N:        func(t string) int64 { tier = t; n := recN(t); return n * n * 3 },
 			Describe: func(i int64) string { return recProg(i).Lisp() },
 			Run: func(i int64, r *vf.Rec) {
 				rg.compareWithModel(recProg(i), []string{"x", "y", "f"}, r, false)
@@ -422,10 +422,10 @@ func init() {
 			return sgFullOf().Unrank(0, i-a)
 		}
 		scoping := &vf.Family{
-			Name:   "scoping",
-			Bounds: "all programs of weight <=9 (quick) / <=10 (thorough) over leaves {x, y, 1, 2} and only scope-forming constructs (let x, let y, zero-parameter closure, call of it, one-parameter fn applied in place), plus weight <=7 / <=9 with list, if, (do (def x ..) ..), (apply f (list)) and a zero-parameter closure whose body is (def x ..) added: closures made in one scope, shadowed later in tail position, then called",
-			Setup:  func(t string) { tier = t; setup(t) },
-			N:      func(t string) int64 { tier = t; a, b := scopeN(); return a + b },
+			Name:     "scoping",
+			Bounds:   "all programs of weight <=9 (quick) / <=10 (thorough) over leaves {x, y, 1, 2} and only scope-forming constructs (let x, let y, zero-parameter closure, call of it, one-parameter fn applied in place), plus weight <=7 / <=9 with list, if, (do (def x ..) ..), (apply f (list)) and a zero-parameter closure whose body is (def x ..) added: closures made in one scope, shadowed later in tail position, then called",
+			Setup:    func(t string) { tier = t; setup(t) },
+			N:        func(t string) int64 { tier = t; a, b := scopeN(); return a + b },
 			Describe: func(i int64) string { return scopeProg(i).Lisp() },
 			Run: func(i int64, r *vf.Rec) {
 				rg.compareWithModel(scopeProg(i), []string{"x", "y"}, r, false)
@@ -433,9 +433,9 @@ func init() {
 		}
 		return &vf.Check{
 			ID: "C01", Level: "model_checking",
-			Rule: "every program of the bounded grammar is evaluated by the real EVAL and by an independent definitional interpreter; result (or error kind and thrown value), ordered effect trace and final bindings of x, y, f must agree; non-trivial = the program has effects or binds a global",
+			Rule:        "every program of the bounded grammar is evaluated by the real EVAL and by an independent definitional interpreter; result (or error kind and thrown value), ordered effect trace and final bindings of x, y, f must agree; non-trivial = the program has effects or binds a global",
 			Assumptions: []string{"the definitional interpreter (harness/internal/model/interp.go) transcribes the mal definition as amended by the README", "error messages are not compared, only value-vs-error, thrown payload, trace and bindings", "programs that run out of fuel on either side are skipped and counted"},
-			Families: []*vf.Family{core, rec, scoping},
+			Families:    []*vf.Family{core, rec, scoping},
 		}
 	})
 }
